@@ -111,7 +111,48 @@ class GuardedSiteEscape(SiteEscape):
 
             if derives_only_from(func, f.value, pred, use_site=node) and hit:
                 return hit[0]
+            # the same inside a module-level helper that is handed the value (`helpers._decode_path(path)`): the
+            # receiver is a parameter the helper never re-binds, and EVERY call of the helper in the package hands it
+            # such a value (the summary of the helper is shared by all its callers)
+            if isinstance(f.value, ast.Name) and func.cls is None and func.parent is None and f.value.id in func.params() \
+                    and f.value.id not in assignments(func):
+                sites = self._call_sites(func)
+                idx = func.params().index(f.value.id)
+                ok = bool(sites)
+                for caller, call in sites:
+                    if any(isinstance(a, ast.Starred) for a in call.args) or any(k.arg is None for k in call.keywords):
+                        ok = False
+                        break
+                    arg = next((k.value for k in call.keywords if k.arg == f.value.id), call.args[idx] if idx < len(call.args) else None)
+                    def cpred(e, caller=caller):
+                        t = is_table_read(caller, e, LATIN1_TUNNELLED)
+                        if t:
+                            hit.append(t)
+                            return True
+                        return isinstance(e, ast.Constant) and isinstance(e.value, str) and _try_encode(e.value, 'iso-8859-1') is not None
+
+                    if arg is None or not derives_only_from(caller, arg, cpred, use_site=call):
+                        ok = False
+                        break
+                if ok and hit:
+                    return hit[0] + ' (handed to %s by every caller)' % func.name
         return None
+
+    def _call_sites(self, target: Func):
+        """[(caller, call)] for every call in the package that resolves to the module-level function `target`."""
+        cache = self.__dict__.setdefault('_sites_memo', {})
+        if target.qual not in cache:
+            out = []
+            for g in self.p.funcs.values():
+                if g is target:
+                    continue
+                for c in walk_no_nested(g.node):
+                    if isinstance(c, ast.Call) and ((isinstance(c.func, ast.Attribute) and c.func.attr == target.name)
+                                                    or (isinstance(c.func, ast.Name) and c.func.id == target.name)):
+                        if self.p.resolve_callable(g, c.func) is target:
+                            out.append((g, c))
+            cache[target.qual] = out
+        return cache[target.qual]
 
     def _expr(self, e, func, selfcls, handlers, out, store=False):
         if e is None:
